@@ -6,6 +6,12 @@ open RF.Session RF.Project RF.Gen.Phases RF.Gen.Emitters
 
 /-! ### module resolution fails exactly on a reachable fault -/
 
+theorem false_of_some {α : Type} {o : Option α} {b : Bool} (hiff : o = none ↔ b = true) {a : α} (h : o = some a) :
+    b = false := by
+  cases hb : b with
+  | false => rfl
+  | true => rw [hiff.2 hb] at h; cases h
+
 mutual
 theorem visitTree_none_iff : ∀ (t : Tree) (acc : List File), visitTree t acc = none ↔ faultT t = true
   | .node f mods, acc => by
@@ -34,6 +40,55 @@ theorem visitMods_none_iff : ∀ (m : Mods) (acc : List File), visitMods m acc =
     exact visitMods_none_iff rest acc
   | .notFound _, _ => by simp [visitMods, faultM]
   | .multiple _, _ => by simp [visitMods, faultM]
+  | .cfgAttr alts dk act (.node df dm) ghost rest, acc => by
+    unfold visitMods faultM
+    by_cases hf : altsFail alts = true
+    · simp [hf]
+    · simp only [hf, Bool.false_eq_true, if_false, Bool.false_or]
+      cases act with
+      | fail => simp
+      | none => simp only []; exact visitMods_none_iff rest acc
+      | file =>
+        simp only []
+        cases h1 : visitAlts alts (orInsert df (insertAlts alts acc)) with
+        | none => simp [(visitAlts_none_iff alts _).1 h1]
+        | some a1 =>
+          have e1 := false_of_some (visitAlts_none_iff alts _) h1
+          dsimp only
+          cases h2 : visitMods dm a1 with
+          | none => simp [(visitMods_none_iff dm a1).1 h2]
+          | some a2 =>
+            have e2 := false_of_some (visitMods_none_iff dm a1) h2
+            simp [e1, e2, visitMods_none_iff rest a2]
+      | declaringItem =>
+        simp only []
+        cases h1 : visitAlts alts (orInsert ghost (insertAlts alts acc)) with
+        | none => simp [(visitAlts_none_iff alts _).1 h1]
+        | some a1 =>
+          have e1 := false_of_some (visitAlts_none_iff alts _) h1
+          simp [e1, visitMods_none_iff rest a1]
+      | candidates =>
+        simp only []
+        cases h1 : visitAlts alts (insertAlts alts acc) with
+        | none => simp [(visitAlts_none_iff alts _).1 h1]
+        | some a1 =>
+          have e1 := false_of_some (visitAlts_none_iff alts _) h1
+          simp [e1, visitMods_none_iff rest a1]
+theorem visitAlts_none_iff : ∀ (a : Alts) (acc : List File), visitAlts a acc = none ↔ faultA a = true
+  | .nil, acc => by simp [visitAlts, faultA]
+  | .cons .use (.node f m) rest, acc => by
+    unfold visitAlts faultA
+    cases h : visitMods m acc with
+    | none => simp [(visitMods_none_iff m acc).1 h]
+    | some a =>
+      have e := false_of_some (visitMods_none_iff m acc) h
+      simp [e, visitAlts_none_iff rest a]
+  | .cons .fail t rest, acc => by
+    unfold visitAlts faultA
+    exact visitAlts_none_iff rest acc
+  | .cons .skip t rest, acc => by
+    unfold visitAlts faultA
+    exact visitAlts_none_iff rest acc
 end
 
 theorem visitCrate_none_iff (recursive : Bool) (root : Tree) :
@@ -94,6 +149,29 @@ theorem mem_insert {f x : File} : ∀ {l : List File}, x ∈ mapInsert f l → x
           · left; exact h
           · right; right; exact h
 
+theorem insertAlts_mem {x : File} : ∀ (a : Alts) (acc : List File), x ∈ insertAlts a acc → x ∈ acc ∨ x ∈ allFilesA a
+  | .nil, acc => by unfold insertAlts; intro h; left; exact h
+  | .cons .use (.node f m) rest, acc => by
+    unfold insertAlts allFilesA allFilesT
+    intro h
+    rcases insertAlts_mem rest _ h with h1 | h1
+    · rcases mem_orInsert h1 with h2 | h2
+      · right; simp [h2]
+      · left; exact h2
+    · right; simp [h1]
+  | .cons .fail t rest, acc => by
+    unfold insertAlts allFilesA
+    intro h
+    rcases insertAlts_mem rest _ h with h1 | h1
+    · left; exact h1
+    · right; simp [h1]
+  | .cons .skip t rest, acc => by
+    unfold insertAlts allFilesA
+    intro h
+    rcases insertAlts_mem rest _ h with h1 | h1
+    · left; exact h1
+    · right; simp [h1]
+
 mutual
 theorem visitTree_mem : ∀ (t : Tree) (acc r : List File), visitTree t acc = some r →
     ∀ x ∈ r, x ∈ acc ∨ x ∈ allFilesT t
@@ -129,6 +207,90 @@ theorem visitMods_mem : ∀ (m : Mods) (acc r : List File), visitMods m acc = so
     exact visitMods_mem rest acc r
   | .notFound _, _, _ => by unfold visitMods; intro h; cases h
   | .multiple _, _, _ => by unfold visitMods; intro h; cases h
+  | .cfgAttr alts dk act (.node df dm) ghost rest, acc, r => by
+    unfold visitMods allFilesM allFilesT
+    by_cases hf : altsFail alts = true
+    · simp [hf]
+    · simp only [hf, Bool.false_eq_true, if_false]
+      cases act with
+      | fail => intro h; cases h
+      | none =>
+        simp only []
+        intro h x hx
+        rcases visitMods_mem rest acc r h x hx with k | k <;> simp [k]
+      | file =>
+        simp only []
+        cases h1 : visitAlts alts (orInsert df (insertAlts alts acc)) with
+        | none => intro h; cases h
+        | some a1 =>
+          dsimp only
+          cases h2 : visitMods dm a1 with
+          | none => intro h; cases h
+          | some a2 =>
+            dsimp only
+            intro h x hx
+            rcases visitMods_mem rest a2 r h x hx with k | k
+            · rcases visitMods_mem dm a1 a2 h2 x k with k | k
+              · rcases visitAlts_mem alts _ a1 h1 x k with k | k
+                · rcases mem_orInsert k with k | k
+                  · simp [k]
+                  · rcases insertAlts_mem alts acc k with k | k <;> simp [k]
+                · simp [k]
+              · simp [k]
+            · simp [k]
+      | declaringItem =>
+        simp only []
+        cases h1 : visitAlts alts (orInsert ghost (insertAlts alts acc)) with
+        | none => intro h; cases h
+        | some a1 =>
+          dsimp only
+          intro h x hx
+          rcases visitMods_mem rest a1 r h x hx with k | k
+          · rcases visitAlts_mem alts _ a1 h1 x k with k | k
+            · rcases mem_orInsert k with k | k
+              · simp [k]
+              · rcases insertAlts_mem alts acc k with k | k <;> simp [k]
+            · simp [k]
+          · simp [k]
+      | candidates =>
+        simp only []
+        cases h1 : visitAlts alts (insertAlts alts acc) with
+        | none => intro h; cases h
+        | some a1 =>
+          dsimp only
+          intro h x hx
+          rcases visitMods_mem rest a1 r h x hx with k | k
+          · rcases visitAlts_mem alts _ a1 h1 x k with k | k
+            · rcases insertAlts_mem alts acc k with k | k <;> simp [k]
+            · simp [k]
+          · simp [k]
+theorem visitAlts_mem : ∀ (a : Alts) (acc r : List File), visitAlts a acc = some r →
+    ∀ x ∈ r, x ∈ acc ∨ x ∈ allFilesA a
+  | .nil, acc, r => by
+    unfold visitAlts; intro h; cases h; intro x hx; left; exact hx
+  | .cons .use (.node f m) rest, acc, r => by
+    unfold visitAlts allFilesA allFilesT
+    cases h : visitMods m acc with
+    | none => intro h'; cases h'
+    | some a =>
+      intro h' x hx
+      rcases visitAlts_mem rest a r h' x hx with k | k
+      · rcases visitMods_mem m acc a h x k with k | k
+        · left; exact k
+        · right; simp [k]
+      · right; simp [k]
+  | .cons .fail t rest, acc, r => by
+    unfold visitAlts allFilesA
+    intro h x hx
+    rcases visitAlts_mem rest acc r h x hx with k | k
+    · left; exact k
+    · right; simp [k]
+  | .cons .skip t rest, acc, r => by
+    unfold visitAlts allFilesA
+    intro h x hx
+    rcases visitAlts_mem rest acc r h x hx with k | k
+    · left; exact k
+    · right; simp [k]
 end
 
 theorem visitCrate_mem (recursive : Bool) (root : Tree) (r : List File)
